@@ -1,4 +1,4 @@
-"""pysym memory proxies: SymBuf (bytearray), SymSeq (memoryview / bytes copy), SymStruct, SymFloat,
+"""pysym memory proxies: SymBuf (bytearray), SymSeq (memoryview / bytes copy), SymNDArray (np.frombuffer window), SymStruct, SymFloat,
 and the module-global shims installed inside the yardl modules only."""
 import builtins, struct as _struct, sys, z3
 from . import core
@@ -340,7 +340,11 @@ class SymBuf:
             return SymSeq(self.arr, lo, ln, self.n, live=None)  # a copy (frozen snapshot)
         t = self._index(i, "load")
         b = self.arr.select(t)
-        return b.as_long() if z3.is_bv_value(b) else SymInt(zx(b))
+        if z3.is_bv_value(b):
+            return b.as_long()
+        w = zx(b)
+        core.declare_range(w, 0, 255)      # a zero-extended byte
+        return SymInt(w)
 
     def __setitem__(self, i, v):
         if isinstance(i, slice):
@@ -504,6 +508,77 @@ class SymComplex:
 
     def eval_obs(self, m):
         return [self.real.eval_obs(m), self.imag.eval_obs(m)]
+
+
+class SymNDArray:
+    """Result of np.frombuffer on a symbolic buffer.  Like the real function it does NOT copy: the array
+    is a window onto `backing` (a SymBuf, or a SymSeq that may itself be a live view of a SymBuf), so its
+    bytes are whatever the backing object holds *when they are looked at* - which is how aliasing of the
+    reader's buffer becomes visible to the obligations.  Only what NDArraySerializerBase._read_data does
+    with the result is supported (reshape, shape/dtype/nbytes)."""
+
+    def __init__(self, backing, dtype, shape, lo=0):
+        self.backing, self.dtype, self.shape, self.lo = backing, dtype, tuple(shape), lo
+        n = 1
+        for d in self.shape:
+            n *= d
+        self.size = n
+        self.nbytes = n * dtype.itemsize
+        self.ndim = len(self.shape)
+
+    def reshape(self, *shape):
+        import numpy as _np
+        if len(shape) == 1 and isinstance(shape[0], (tuple, list)):
+            shape = tuple(shape[0])
+        shape = tuple(int(d) for d in shape)
+        # numpy does the shape arithmetic (incl. -1 and the size check -> ValueError)
+        real = _np.empty(self.shape, dtype=_np.uint8).reshape(shape).shape
+        return SymNDArray(self.backing, self.dtype, real, self.lo)
+
+    def byte_term(self, i):
+        return self.backing.byte_term(iadd(self.lo, i) if self.lo else i)
+
+    def live_buffer(self):
+        """the SymBuf this array shares memory with, or None when it owns a frozen copy"""
+        b = self.backing
+        return b if isinstance(b, SymBuf) else b.live
+
+    def eval_obs(self, m):
+        return [list(self.shape), [m.eval(self.byte_term(k), model_completion=True).as_long() for k in range(self.nbytes)]]
+
+
+class NumpyShim:
+    """Stands for the name `np` inside the yardl modules: everything is numpy, except frombuffer on a
+    symbolic buffer, which yields a SymNDArray window (no copy, as in numpy)."""
+
+    def __init__(self, real):
+        self.__dict__["_real"] = real
+
+    def __getattr__(self, n):
+        return getattr(self._real, n)
+
+    def frombuffer(self, buffer, dtype=float, count=-1, offset=0):
+        if not isinstance(buffer, (SymBuf, SymSeq)):
+            return self._real.frombuffer(buffer, dtype=dtype, count=count, offset=offset)
+        dt = self._real.dtype(dtype)
+        n = _c(seq_len(buffer))
+        if n is None:
+            n = ctx().concretize(seq_len(buffer), "np.frombuffer buffer length")
+        if dt.itemsize == 0:
+            raise ValueError("itemsize cannot be zero in type")
+        offset = int(offset)
+        if offset < 0 or offset > n:
+            raise ValueError("offset must be non-negative and no greater than buffer length (%d)" % n)
+        avail = n - offset
+        if count < 0:
+            if avail % dt.itemsize:
+                raise ValueError("buffer size must be a multiple of element size")
+            count = avail // dt.itemsize
+        elif avail < count * dt.itemsize:
+            raise ValueError("buffer is smaller than requested size")
+        if isinstance(buffer, SymBuf):
+            buffer.exports += 1
+        return SymNDArray(buffer, dt, (count,), offset)
 
 
 _INT_FMT = {"b": (1, True), "B": (1, False), "h": (2, True), "H": (2, False), "i": (4, True), "I": (4, False),
@@ -760,6 +835,10 @@ def install(mod, names=None):
             if k == "struct" and "struct" not in mod.__dict__:
                 continue
             mod.__dict__[k] = v
+    import types as _types
+    npm = mod.__dict__.get("np")
+    if (names is None or "np" in names) and isinstance(npm, _types.ModuleType) and npm.__name__ == "numpy":
+        mod.__dict__["np"] = NumpyShim(npm)
     for name, obj in list(mod.__dict__.items()):
         if isinstance(obj, _struct.Struct):
             mod.__dict__[name] = SymStruct(obj.format)
